@@ -16,7 +16,7 @@ TRUSTED = [
     "ide-level results are taken from a second in-memory AnalysisHost over the same texts (harness `ws`)",
     "lsp-types/async-lsp serialisation, url <-> path conversion",
 ]
-RULE = ("two- and three-file workspaces whose files have different line structure (blank-line/comment prefixes, LF/CRLF/CR, non-ASCII "
+RULE = ("three- to five-file workspaces (symbols referenced from several included files) whose files have different line structure (blank-line/comment prefixes, LF/CRLF/CR, non-ASCII "
         "comments and strings; spans that themselves contain non-ASCII text: links to non-ASCII file names, type errors on non-ASCII strings, stray non-ASCII characters); requests: definition and references at every identifier, documentSymbol, foldingRange, documentLink, "
         "inlayHint for every file, plus published diagnostics; a workspace is non-trivial if a definition or reference crosses files")
 FINISH = dict(level="proof", trusted_base=TRUSTED, rule=RULE)
@@ -54,13 +54,16 @@ def workspaces(ck):
         e1, e2, e3 = rng.choice(EOLS), rng.choice(EOLS), rng.choice(EOLS)
         inc = (rng.choice(PREFIXES) + "class Base<int w, string s = \"é\"> {%s  int f = w;%s}%s" % (e2, e2, e2)
                + rng.choice(PREFIXES) + "class Mid : Base<1> {%s  let f = 2;%s}%s" % (e2, e2, e2) + "def shared : Mid;%s" % e2)
-        sub = rng.choice(PREFIXES) + "class Leaf;%sdefvar leafv = 1;%s" % (e3, e3)
-        main = (rng.choice(PREFIXES) + 'include "inc.td"%s' % e1 + rng.choice(PREFIXES) + 'include "sub.td"%s' % e1
+        # sub.td and third.td use classes of inc.td too: the references of one symbol then lie in several files other than the
+        # requesting one, each with its own line structure
+        sub = rng.choice(PREFIXES) + "class Leaf;%sdefvar leafv = 1;%s" % (e3, e3) + rng.choice(PREFIXES) + "def subuse : Mid;%sclass SubBase : Base<7>;%s" % (e3, e3)
+        third = rng.choice(PREFIXES) + rng.choice(PREFIXES) + "def thirduse : Mid { let f = 3; }%sdef third2 : Base<9>;%s" % (e1, e1)
+        main = (rng.choice(PREFIXES) + 'include "inc.td"%s' % e1 + rng.choice(PREFIXES) + 'include "sub.td"%s' % e1 + 'include "third.td"%s' % e1
                 + "class Top<int q> : Mid, Leaf {%s  let f = q;%s  Base b = Base<2, \"ü\">;%s}%s" % (e1, e1, e1, e1)
                 + "def top : Top<3> { int g = leafv; }%s" % e1
                 + "foreach i = [1, 2] in {%s  def x#i : Undefined<i>;%s}%s" % (e1, e1, e1)
                 + 'include "missing.td"%s' % e1)
-        files = {"inc.td": inc, "sub.td": sub}
+        files = {"inc.td": inc, "sub.td": sub, "third.td": third}
         # spans that themselves contain non-ASCII text: a link to a file with a non-ASCII name, type errors on non-ASCII strings
         # (also as a template argument), a stray non-ASCII character (lexer + parser diagnostics)
         wide = rng.choice(["gr\u00f6\u00dfe", "\U0001F600x", "a\U000F0001b", "\u20acuro\U0010FFFF", "\u00e9"])
